@@ -18,7 +18,8 @@ behaviour:
 The bus is found through DBUS_STARTER_ADDRESS.  Every event is one appended line in the log file:
     started <pid>
     connected <unique name>
-    acquired <name> <RequestName reply code>
+    will-request <serial>            (gated 'quick' only: the serial the RequestName after the gate will carry)
+    acquired <name> <RequestName reply code | error:<name>>     (repeated after a NoMemory error: the request is retried)
     msg <arrival index> <type> <sender> <serial> <member> <first string argument>
 Method calls are answered with a METHOD_RETURN carrying the same string (after the line has been written, so a
 reply to a later call proves that all earlier arrivals are in the log).
@@ -85,14 +86,20 @@ def main():
         time.sleep(int(arg) / 1000.0)
     want = None
     if kind == "quick":
+        if gated:
+            log("will-request %d" % (c.serial + 1))     # serial of the RequestName that follows the gate (fault-injection runs arm on it)
         gate()
     if kind in ("quick", "delay", "delay-connect"):
         want = name
     elif kind == "other":
         want = name + b".Other"
     if want is not None:
-        r = c.bus_call(b"RequestName", b"su", [want, 0])
-        log("acquired %s %s" % (want.decode(), r.msg.body[0] if r.msg.type == 2 else "error:%s" % r.msg.known().get(4)))
+        for attempt in range(4):
+            r = c.bus_call(b"RequestName", b"su", [want, 0])
+            log("acquired %s %s" % (want.decode(), r.msg.body[0] if r.msg.type == 2 else "error:%s" % r.msg.known().get(4).decode()))
+            # out of memory in the bus is transient by definition: ask again
+            if not (r.msg.type == 3 and r.msg.known().get(4) == b"org.freedesktop.DBus.Error.NoMemory"):
+                break
     idx = 0
     while True:
         try:
